@@ -132,7 +132,8 @@ func (bv *BitVector) Equals() bool {
 		return false
 	}
 
-	l := len(bv.b)
+	// only the bytes that hold the bv.len bits: the backing slice may be longer
+	l := (bv.len + 7) / 8
 
 	length := bv.len % 8
 	for i := 0; i < l; i++ {
